@@ -95,11 +95,19 @@ def configs(tier, seed):
                 c = dict(n=N, k=k, action=action, others=0, ostate="finished", load=load, clock="system", sig=0, cycles=0, victim="main" if (k % 2 or action == "return") else "thread", badflush=1)
                 c.update(extra2)
                 cfgs.append(c)
+    # a flush request waits behind a backlog while a late thread logs through its own logger and exits at once
+    for k in range(0, N + 1):
+        for action, extra2 in [("stop", {}), ("exit", {}), ("return", {}), ("cycles", {"cycles": 2})]:
+            for others, ostate in [(0, "finished"), (2, "finished"), (1, "parked")]:
+                c = dict(n=N, k=k, action=action, others=others, ostate=ostate, load="busy", clock="system" if k % 2 else "tsc", sig=0, cycles=0, victim="main", flusher=1)
+                c.update(extra2)
+                cfgs.append(c)
     for c in cfgs:
         c.setdefault("big", 0)
         c.setdefault("prealloc", 0)
         c.setdefault("second_fault_ms", 0)
         c.setdefault("badflush", 0)
+        c.setdefault("flusher", 0)
         c.setdefault("grace_us", 0)
         c.setdefault("wait_empty", 1)
         c.setdefault("settle_ms", 0)
@@ -176,7 +184,7 @@ def judge(c, rc, timed_out, d):
             return "completed-statement-lost:backlog:" + c["action"], {"slow_lines": len(sl)}
     # ---- other threads: everything whose return ticket precedes the action ticket (not demanded for signals)
     if c["action"] != "signal":
-        for t in range(c["others"]):
+        for t in range(c["others"] + c["flusher"]):
             prog = read_prog(os.path.join(d, "prog_other%d" % t))
             must = [i for (g, w, i) in prog if w == "ret" and g < g_action]
             ol = [l for l in (read_lines(os.path.join(d, "other%d.log" % t)) or []) if l.startswith("O%d|" % t)]
@@ -192,7 +200,7 @@ def judge(c, rc, timed_out, d):
 def run_child(exe, c, d):
     os.makedirs(d, exist_ok=True)
     args = [exe, "--dir", d]
-    for k in ("n", "k", "action", "others", "ostate", "load", "clock", "sig", "cycles", "victim", "big", "prealloc", "second_fault_ms", "grace_us", "wait_empty", "settle_ms", "badflush"):
+    for k in ("n", "k", "action", "others", "ostate", "load", "clock", "sig", "cycles", "victim", "big", "prealloc", "second_fault_ms", "grace_us", "wait_empty", "settle_ms", "badflush", "flusher"):
         args += ["--" + k, str(c[k])]
 
     def pre():
@@ -237,7 +245,7 @@ def run(tier, seed):
         b = col.builds.setdefault(variant, {"processes": 0, "sanitizer_or_crash_reports": 0})
         b["processes"] += 1
         if reached:
-            tuples.add((c["action"], c["k"], c["sig"], c["clock"], c["load"], c["others"], c["ostate"], c["victim"], c["cycles"], c["n"], c["big"], c["prealloc"], c["second_fault_ms"], c["grace_us"], c["wait_empty"], c["settle_ms"], c["badflush"]))
+            tuples.add((c["action"], c["k"], c["sig"], c["clock"], c["load"], c["others"], c["ostate"], c["victim"], c["cycles"], c["n"], c["big"], c["prealloc"], c["second_fault_ms"], c["grace_us"], c["wait_empty"], c["settle_ms"], c["badflush"], c["flusher"]))
             statements += (c["k"] if c["action"] != "cycles" else c["n"]) + (150 if c["load"] == "busy" else 0)
         if key:
             w = dict(wit)
